@@ -44,16 +44,29 @@ def rwPairsOfJson (j : Json) : Except String (List (Str × Str)) := do
     let a ← e.getArr?
     pure ((← strOfJson (a.getD 0 Json.null)), (← strOfJson (a.getD 1 Json.null)))
 
-def rwFscopeOfJson (j : Json) : Except String FScope :=
+def rwCondOfJson (s : Json) : Except String FScope := do
+  let fs ← rwStrListOfJson (← s.getObjVal? "fields")
+  match ← s.getObjValAs? String "mode" with
+  | "include" => pure (includeFields fs)
+  | "exclude" => pure (excludeFields fs)
+  | m => throw s!"bad scope mode {m}"
+
+/-- `scope` = `{conds: [{mode, fields}…], anyOf, neg}` (the condition group of the item) or a single `{mode, fields}`
+→ the group on field names and the group on detection items -/
+def rwGroupOfJson (j : Json) : Except String (FScope × Scope) :=
   match j.getObjVal? "scope" with
   | .ok (.obj o) => do
     let s := Json.obj o
-    let fs ← rwStrListOfJson (← s.getObjVal? "fields")
-    match ← s.getObjValAs? String "mode" with
-    | "include" => pure (includeFields fs)
-    | "exclude" => pure (excludeFields fs)
-    | m => throw s!"bad scope mode {m}"
-  | _ => pure everything
+    match s.getObjVal? "conds" with
+    | .ok (.arr a) => do
+      let cs ← a.toList.mapM rwCondOfJson
+      let anyOf := getBoolD s "anyOf" false
+      let neg := getBoolD s "neg" false
+      pure (groupFields anyOf neg cs, groupItems anyOf neg cs)
+    | _ => do
+      let c ← rwCondOfJson s
+      pure (c, fieldScope c)
+  | _ => pure (everything, fieldScope everything)
 
 def rwFieldFnOfJson (j : Json) : Except String (Str → List Str) := do
   match ← j.getObjValAs? String "k" with
@@ -79,16 +92,17 @@ partial def rwTrOfJson (j : Json) : Except String Tr := do
   match ← j.getObjValAs? String "t" with
   | "rename" => do
     let m ← rwFieldFnOfJson (← j.getObjVal? "fn")
-    pure (.rename (scopedMap (← rwFscopeOfJson j) m))
+    let (fsc, gate) ← rwGroupOfJson j
+    pure (.renameGated gate (scopedMap fsc m))
   | "kw2field" => do pure (.kwToField (← getStr j "g"))
-  | "drop" => do pure (.drop (fieldScope (← rwFscopeOfJson j)))
+  | "drop" => do pure (.drop (← rwGroupOfJson j).2)
   | "addCond" => do
     let items ← (← (← j.getObjVal? "items").getArr?).toList.mapM rwKvOfJson
     let items ← if getBoolD j "template" false then do
         pure (tplItems (← rwPairsOfJson (← j.getObjVal? "vars")) items)
       else pure items
     pure (.addCond (← getStr j "name") items (getBoolD j "negated" false))
-  | "value" => do pure (.value (← rwVtOfJson (← j.getObjVal? "vt")) (fieldScope (← rwFscopeOfJson j)))
+  | "value" => do pure (.value (← rwVtOfJson (← j.getObjVal? "vt")) (← rwGroupOfJson j).2)
   | "addFields" => do let fs ← rwStrListOfJson (← j.getObjVal? "fields"); pure (.fieldsList (addFields fs))
   | "removeFields" => do let fs ← rwStrListOfJson (← j.getObjVal? "fields"); pure (.fieldsList (removeFields fs))
   | "setFields" => do let fs ← rwStrListOfJson (← j.getObjVal? "fields"); pure (.fieldsList (setFields fs))
